@@ -909,7 +909,7 @@ func hasBalancedBlocks(s string) bool {
 			}
 			continue
 		}
-		if c == '\\' {
+		if c == '\\' && i+1 < len(s) && s[i+1] != '\n' && s[i+1] != '\r' && s[i+1] != '\f' {
 			if ident < 0 {
 				ident = i
 			}
@@ -923,9 +923,26 @@ func hasBalancedBlocks(s string) bool {
 		name := ""
 		if ident >= 0 {
 			name = s[ident:i]
+			// "<!--" is a token of its own, the name begins after it; after
+			// "#" or "@" the name belongs to a hash token or an at-keyword
+			// and is not a function name
+			if ident >= 2 && s[ident-2:ident] == "<!" && strings.HasPrefix(name, "--") {
+				name = name[2:]
+			}
+			if ident >= 1 && (s[ident-1] == '#' || s[ident-1] == '@') {
+				name = ""
+			}
 			ident = -1
 		}
 		switch c {
+		case ';':
+			// the declaration parser has split the style at every ";" it
+			// took for a separator; one that is left at the top level of a
+			// value (it read "URL(/*);top:0;*/" as a function and a comment)
+			// is a separator for a browser
+			if len(open) == 0 {
+				return false
+			}
 		case '/':
 			// a comment hides what it contains, brackets included
 			if i+1 < len(s) && s[i+1] == '*' {
